@@ -36,6 +36,13 @@ THEOREMS = [
     "SynKit.Views.species_roundtrip",
     "SynKit.Views.species_roundtrip_mol",
     "SynKit.Views.C16.full",
+    "SynKit.Views.ofBipartiteRaw_toRaw",
+    "SynKit.Views.ofSpeciesGraphRaw_toRaw",
+    "SynKit.Views.parseItemsFrom_plain",
+    # ties of the raw importers (ViewsRaw.lean, reached by the raw streams) to the importers above
+    "SynKit.Views.ofBipartiteRaw_toRaw",
+    "SynKit.Views.ofSpeciesGraphRaw_toRaw",
+    "SynKit.Views.parseItemsFrom_plain",
 ]
 
 WS = {0x9, 0xA, 0xB, 0xC, 0xD, 0x1C, 0x1D, 0x1E, 0x1F, 0x20, 0x85, 0xA0, 0x1680, 0x2028, 0x2029, 0x202F, 0x205F, 0x3000} | set(range(0x2000, 0x200B))
@@ -634,6 +641,596 @@ def run_lines(ctx, cases, tag):
                 return
 
 
+# ------------------------------------------------------------------ importers beyond the exporters' output
+# The importers accept more than the exporters produce: graphs without `kind` tags (prefix, then
+# degree heuristic), without labels / edge ids / stoichiometry, under other attribute names (keyword
+# arguments), relabelled species graphs, arcs without `via` / per-reaction maps (legacy values),
+# `via` as list / tuple / single id, `mol_attr=None`, `default_rule`; `parse_rxns` takes (line, rule)
+# tuples, a mapping, `rules=` and `prefer_suffix`.  Model: SynKitModel/ViewsRaw.lean.  Each case is
+# (network, export flags, transformation t): the graph is exported by the real exporter, degraded as t
+# says, imported by the real importer with the keyword arguments t says, and the model gets the
+# degraded graph as the importer reads it (attributes looked up under the names passed).
+def any_guarded(fn):
+    try:
+        return {"ok": canon_net(fn())}
+    except Exception as e:  # every exception is an outcome here (the model knows three kinds)
+        return {"err": type(e).__name__}
+
+
+def hit(mask, i):
+    return bool(mask[i % len(mask)])
+
+
+def mark_generated(res, explicit):
+    """Ids not taken from the graph are synthesised from hash(): compared by shape only."""
+    if "ok" not in res:
+        return res
+    n = res["ok"]
+    rx = [{**r, "id": (r["id"] if r["id"] in explicit else None)} for r in n["rxns"]]
+    rx.sort(key=lambda r: json.dumps(r, sort_keys=True))
+    return {"ok": {**{k: v for k, v in n.items() if k != "rxns"}, "rxns": rx}}
+
+
+def no_rules(res):
+    if "ok" not in res:
+        return res
+    n = res["ok"]
+    return {"ok": {**n, "rxns": sorted(({**r, "rule": None} for r in n["rxns"]), key=lambda r: json.dumps(r, sort_keys=True))}}
+
+
+BIP_RAW_MODES = {
+    "kind": ["keep", "all", "all", "all", "species", "reaction", "some", "other"],
+    "sp_label": ["keep", "keep", "strip", "rename", "rename_nopass"],
+    "rx_label": ["keep", "keep", "strip", "rename", "rename_nopass"],
+    "edge_id": ["keep", "keep", "strip", "rename", "rename_nopass", "some"],
+    "stoich": ["keep", "keep", "strip", "rename", "rename_nopass", "some"],
+    "mol": ["keep", "keep", "rename", "rename_nopass", "none"],
+}
+
+
+def random_bip_transform(rnd, f):
+    """35% 'wild' (every dimension drawn from its mode list), else 'mild': 1-2 dimensions (+ 'kind' with 40%) drawn, the rest kept."""
+    wild = rnd.random() < 0.35
+    t = {k: "keep" for k in BIP_RAW_MODES}
+    for k in (list(BIP_RAW_MODES) if wild else rnd.sample(list(BIP_RAW_MODES), rnd.choice([1, 1, 2])) + (["kind"] if rnd.random() < 0.4 else [])):
+        t[k] = rnd.choice(BIP_RAW_MODES[k])
+    t["mask"] = [rnd.random() < 0.5 for _ in range(7)]
+    same = rnd.random() < (0.7 if wild else 0.85)
+    t["imp_sp"] = (f["sp"] or "") if same else rnd.choice(["S:", "R:", "sp/", "", "x"])
+    t["imp_rp"] = (f["rp"] or "") if same else rnd.choice(["R:", "S:", "rx/", "", "x"])
+    t["default_rule"] = rnd.choice(["r", "r", "dflt", "R1"])
+    return t
+
+
+def apply_bip_transform(G, t):
+    """-> (degraded copy of the exported graph, keyword arguments for bipartite_to_hypergraph)."""
+    G = G.copy()
+    kw = {"species_prefix": t["imp_sp"], "reaction_prefix": t["imp_rp"], "default_rule": t["default_rule"]}
+    order = sorted(G.nodes, key=nid_key)
+    for i, n in enumerate(order):
+        d = G.nodes[n]
+        is_sp = d["kind"] == "species"
+        mode = t["sp_label"] if is_sp else t["rx_label"]
+        if mode == "strip":
+            d.pop("label", None)
+        elif mode in ("rename", "rename_nopass"):
+            d["name" if is_sp else "rname"] = d.pop("label")
+        if "edge_id" in d:
+            if t["edge_id"] == "strip" or (t["edge_id"] == "some" and hit(t["mask"], i)):
+                d.pop("edge_id")
+            elif t["edge_id"] in ("rename", "rename_nopass"):
+                d["eid"] = d.pop("edge_id")
+        if "mol" in d and t["mol"] in ("rename", "rename_nopass"):
+            d["smiles"] = d.pop("mol")
+        k = t["kind"]
+        if k == "all" or (k == "species" and is_sp) or (k == "reaction" and not is_sp) or (k == "some" and hit(t["mask"], i + 3)):
+            d.pop("kind")
+        elif k == "other" and hit(t["mask"], i + 3):
+            d["kind"] = "foo"
+    for i, (u, v) in enumerate(sorted(G.edges, key=lambda e: (nid_key(e[0]), nid_key(e[1])))):
+        d = G.edges[u, v]
+        if "stoich" in d:
+            if t["stoich"] == "strip" or (t["stoich"] == "some" and hit(t["mask"], i + 1)):
+                d.pop("stoich")
+            elif t["stoich"] in ("rename", "rename_nopass"):
+                d["n"] = d.pop("stoich")
+    if t["sp_label"] == "rename":
+        kw["species_label_attr"] = "name"
+    if t["rx_label"] == "rename":
+        kw["reaction_label_attr"] = "rname"
+    if t["edge_id"] == "rename":
+        kw["reaction_edge_id_attr"] = "eid"
+    if t["stoich"] == "rename":
+        kw["stoich_attr"] = "n"
+    if t["mol"] == "rename":
+        kw["mol_attr"] = "smiles"
+    elif t["mol"] == "none":
+        kw["mol_attr"] = None
+    return G, kw
+
+
+def raw_bgraph(G, kw):
+    """The graph as the importer reads it: every attribute under the name passed to the importer."""
+    sla, rla = kw.get("species_label_attr", "label"), kw.get("reaction_label_attr", "label")
+    eia, sa, ma = kw.get("reaction_edge_id_attr", "edge_id"), kw.get("stoich_attr", "stoich"), kw.get("mol_attr", "mol")
+    nodes = [{"id": n, "kind": d.get("kind"), "sp_label": d.get(sla), "rx_label": d.get(rla), "edge_id": d.get(eia),
+              "mol": (str(d[ma]) if ma is not None and ma in d else None)} for n, d in G.nodes(data=True)]
+    edges = [{"u": u, "v": v, "stoich": d.get(sa)} for u, v, d in G.edges(data=True)]
+    return {"cmd": "views.bip_raw", "graph": {"nodes": nodes, "edges": edges}, "sp": kw["species_prefix"], "rp": kw["reaction_prefix"],
+            "default_rule": kw["default_rule"], "mol": ma is not None}
+
+
+def bip_raw_claim(orig, f, t):
+    """The degraded view still determines the network (so the round trip is claimed): None, or
+    (expected network, ids compared?)."""
+    if not positive(orig) or node_clash(orig, f):
+        return None
+    if t["kind"] != "keep":
+        # nodes without a usable `kind` are classified by prefix: needs string ids, non-empty prefixes,
+        # the same prefixes given to the importer, and no reaction node id starting with the species prefix
+        if f["int"] or not f["sp"] or not f["rp"] or t["imp_sp"] != f["sp"] or t["imp_rp"] != f["rp"]:
+            return None
+        if any((f["rp"] + r["id"]).startswith(f["sp"]) for r in orig["rxns"]):
+            return None
+    if t["sp_label"] in ("strip", "rename_nopass") and (f["int"] or f["sp"] is not None):
+        return None  # label gone and the node id is not the label
+    rules_kept = t["rx_label"] in ("keep", "rename")
+    if not rules_kept and any(r["rule"] != t["default_rule"] for r in orig["rxns"]):
+        return None
+    if not ((f["stoich"] and t["stoich"] in ("keep", "rename")) or all_ones(orig)):
+        return None
+    with_ids = f["eid"] and t["edge_id"] in ("keep", "rename")
+    want = expected_bip(orig, {**f, "mol": f["mol"] and t["mol"] in ("keep", "rename")})
+    return want, with_ids
+
+
+def eval_bip_raw(ctx, items, tag, count=True):
+    """items: [(spec, f, t)] -> per item list of Problems."""
+    from synkit.CRN.Hypergraph import conversion as cv
+
+    prep, reqs = [], []
+    for spec, f, t in items:
+        H = build_H(spec)
+        G0 = cv.hypergraph_to_bipartite(H, **flags_kwargs(f))
+        G, kw = apply_bip_transform(G0, t)
+        prep.append((H, G0, G, kw))
+        reqs.append(raw_bgraph(G, kw))
+    reps = ctx.lean().ok(reqs, shards=8)
+    out = []
+    for (spec, f, t), (H, G0, G, kw), req, m in zip(items, prep, reqs, reps):
+        probs = []
+        orig = canon_net(H)
+        explicit = {n["edge_id"] for n in req["graph"]["nodes"] if n["edge_id"] is not None}
+        im = any_guarded(lambda: cv.bipartite_to_hypergraph(G, **kw))
+        a, b = mark_generated(im, explicit), mark_generated(m["re"], explicit)
+        tagged = [n for n in req["graph"]["nodes"] if n["kind"] in ("species", "reaction")]
+        route = ("kind" if len(tagged) == len(req["graph"]["nodes"]) else
+                 "degree" if not tagged and not any(isinstance(n["id"], str) and (n["id"].startswith(kw["species_prefix"]) or n["id"].startswith(kw["reaction_prefix"]))
+                                                    for n in req["graph"]["nodes"]) else "prefix(+kind)")
+        if a != b:
+            probs.append(Problem(view="bip_raw", flag=f, kind="diverge", detail={"what": "imported network", "impl": im, "model": m["re"], "kwargs": kw, "route": route}))
+        elif "ok" in im and not all(r["id"] in explicit or re.fullmatch(re.escape(r["rule"]) + r"_\d{1,8}", r["id"]) for r in im["ok"]["rxns"]):
+            probs.append(Problem(view="bip_raw", flag=f, kind="diverge", detail={"what": "synthesised id is not f'{rule}_{n}' with n < 10**8", "impl": im}))
+        claim = bip_raw_claim(orig, f, t)
+        if count:
+            ctx.count("bip_raw:route:" + route)
+            ctx.count("bip_raw:" + ("claimed" if claim else "no claim (view lost information / heuristic cannot decide)"))
+            ctx.count("bip_raw:re:" + ("ok" if "ok" in im else im["err"]))
+            for k in BIP_RAW_MODES:
+                ctx.count("bip_raw:%s=%s" % (k, t[k]))
+            ctx.count("bip_raw:importer prefixes " + ("as exported" if (t["imp_sp"], t["imp_rp"]) == (f["sp"] or "", f["rp"] or "") else "other"))
+            ctx.count("bip_raw:ids " + ("int" if f["int"] else "str"))
+        if claim:
+            want, with_ids = claim
+            want, got = {"ok": want}, im
+            if not with_ids:
+                want, got = strip_ids(want), strip_ids(got)
+            if got != want:
+                probs.append(Problem(view="bip_raw", flag=f, kind="spec",
+                                     detail={"what": "re-imported network differs from the original", "impl": im, "original": orig, "kwargs": kw, "route": route}))
+        out.append(probs)
+    return out
+
+
+SP_RAW_MODES = {
+    "relabel": ["keep", "int", "int", "str"],
+    "label": ["keep", "keep", "strip", "rename", "rename_nopass"],
+    "via": ["set", "list", "tuple", "scalar", "strip", "some"],
+    "rules": ["set", "set", "scalar", "strip"],
+    "maps": ["keep", "keep", "strip", "strip", "strip_r", "strip_p", "some"],
+    "legacy": ["keep", "keep", "strip"],
+    "mol": ["keep", "keep", "rename", "rename_nopass", "none"],
+}
+
+
+SP_RAW_KEEP = {"relabel": "keep", "label": "keep", "via": "set", "rules": "set", "maps": "keep", "legacy": "keep", "mol": "keep"}
+
+
+def random_sp_transform(rnd):
+    """35% 'wild' (every dimension drawn from its mode list), else 'mild': 1-2 dimensions drawn, the rest as exported."""
+    t = dict(SP_RAW_KEEP)
+    for k in (list(SP_RAW_MODES) if rnd.random() < 0.35 else rnd.sample(list(SP_RAW_MODES), rnd.choice([1, 1, 2]))):
+        t[k] = rnd.choice(SP_RAW_MODES[k])
+    t["mask"] = [rnd.random() < 0.5 for _ in range(7)]
+    t["default_rule"] = rnd.choice(["r", "r", "dflt", "R1"])
+    return t
+
+
+def apply_sp_transform(G0, t):
+    import networkx as nx
+
+    G = nx.DiGraph()
+    G.add_nodes_from((n, dict(d)) for n, d in G0.nodes(data=True))
+    G.add_edges_from((u, v, dict(d)) for u, v, d in G0.edges(data=True))
+    kw = {"default_rule": t["default_rule"]}
+    for n, d in G.nodes(data=True):
+        if t["label"] == "strip":
+            d.pop("label", None)
+        elif t["label"] in ("rename", "rename_nopass") and "label" in d:
+            d["name"] = d.pop("label")
+        if "mol" in d and t["mol"] in ("rename", "rename_nopass"):
+            d["smiles"] = d.pop("mol")
+    for i, (u, v, d) in enumerate(sorted(G.edges(data=True), key=lambda e: (e[0], e[1]))):
+        via, rules = sorted(d["via"]), sorted(d["rules"])
+        if t["via"] == "strip" or (t["via"] == "some" and hit(t["mask"], i)):
+            d.pop("via")
+        elif t["via"] == "list":
+            d["via"] = list(d["via"])
+        elif t["via"] == "tuple":
+            d["via"] = tuple(via)
+        elif t["via"] == "scalar":
+            d["via"] = via[0] if len(via) == 1 else via
+        if t["rules"] == "strip":
+            d.pop("rules")
+        elif t["rules"] == "scalar" and len(rules) == 1:
+            d["rules"] = rules[0]
+        mp = t["maps"]
+        if mp in ("strip", "strip_r") or (mp == "some" and hit(t["mask"], i + 2)):
+            d.pop("stoich_r_map")
+        if mp in ("strip", "strip_p") or (mp == "some" and hit(t["mask"], i + 2)):
+            d.pop("stoich_p_map")
+        if t["legacy"] == "strip":
+            d.pop("stoich_r"), d.pop("stoich_p")
+    if t["relabel"] != "keep":
+        order = list(G.nodes)
+        mp = {n: (i + 1 if t["relabel"] == "int" else "n%d" % (len(order) - i)) for i, n in enumerate(order)}
+        G = nx.relabel_nodes(G, mp, copy=True)
+    if t["label"] == "rename":
+        kw["species_label_attr"] = "name"
+    if t["mol"] == "rename":
+        kw["mol_attr"] = "smiles"
+    elif t["mol"] == "none":
+        kw["mol_attr"] = None
+    return G, kw
+
+
+def raw_sgraph(G, kw):
+    la, ma = kw.get("species_label_attr", "label"), kw.get("mol_attr", "mol")
+    nodes = [{"id": str(n), "label": d.get(la), "mol": (str(d[ma]) if ma is not None and ma in d else None)} for n, d in G.nodes(data=True)]
+    edges = []
+    for u, v, d in G.edges(data=True):
+        via, rules = d.get("via"), d.get("rules")
+        rm, pm = d.get("stoich_r_map"), d.get("stoich_p_map")
+        edges.append({"u": str(u), "v": str(v),
+                      "via": (list(via) if isinstance(via, (set, list, tuple)) else via),
+                      "rules": (list(rules) if isinstance(rules, set) else rules),
+                      "stoich_r": d.get("stoich_r"), "stoich_p": d.get("stoich_p"),
+                      "r_map": ([[k, int(c)] for k, c in rm.items()] if isinstance(rm, dict) else None),
+                      "p_map": ([[k, int(c)] for k, c in pm.items()] if isinstance(pm, dict) else None)})
+    return {"cmd": "views.species_raw", "graph": {"nodes": nodes, "edges": edges}, "default_rule": kw["default_rule"], "mol": ma is not None}
+
+
+def arcs_uniform(orig):
+    """On every species arc all contributing reactions carry the same pair of coefficients (then the
+    legacy single values `stoich_r` / `stoich_p` say everything)."""
+    seen = {}
+    for r in orig["rxns"]:
+        for a, ca in r["r"]:
+            for b, cb in r["p"]:
+                if seen.setdefault((a, b), (ca, cb)) != (ca, cb):
+                    return False
+    return True
+
+
+def sp_raw_claim(orig, t):
+    if not (two_sided(orig) and positive(orig)):
+        return False
+    if t["via"] in ("strip", "some"):
+        return False
+    if t["relabel"] != "keep" and t["label"] not in ("keep", "rename"):
+        return False
+    if t["maps"] == "keep" or all_ones(orig):
+        return True
+    return t["legacy"] == "keep" and arcs_uniform(orig)
+
+
+def eval_sp_raw(ctx, items, tag, count=True):
+    """items: [(spec, include_mol, t)]."""
+    from synkit.CRN.Hypergraph import conversion as cv
+
+    prep, reqs = [], []
+    for spec, mol, t in items:
+        H = build_H(spec)
+        G, kw = apply_sp_transform(cv.hypergraph_to_species_graph(H, include_mol=mol), t)
+        prep.append((H, G, kw))
+        reqs.append(raw_sgraph(G, kw))
+    reps = ctx.lean().ok(reqs, shards=8)
+    out = []
+    for (spec, mol, t), (H, G, kw), req, m in zip(items, prep, reqs, reps):
+        probs = []
+        orig = canon_net(H)
+        explicit = set()
+        for e in req["graph"]["edges"]:
+            explicit |= set(e["via"]) if isinstance(e["via"], list) else ({e["via"]} if e["via"] else set())
+        im = any_guarded(lambda: cv.species_graph_to_hypergraph(G, **kw))
+        cands = {k: v for k, v in m["rules"]}
+        a, b = mark_generated(no_rules(im), explicit), mark_generated(no_rules(m["re"]), explicit)
+        fl = {"mol": mol, "t": t}
+        if a != b:
+            probs.append(Problem(view="species_raw", flag=fl, kind="diverge", detail={"what": "imported network", "impl": im, "model": m["re"], "kwargs": kw}))
+        elif "ok" in im and not all(r["id"] in explicit or re.fullmatch(r"edge_\d{1,8}", r["id"]) for r in im["ok"]["rxns"]):
+            probs.append(Problem(view="species_raw", flag=fl, kind="diverge", detail={"what": "synthesised id is not 'edge_{n}' with n < 10**8", "impl": im}))
+        elif "ok" in im and any(r["id"] in explicit and r["rule"] not in cands.get(r["id"], []) for r in im["ok"]["rxns"]):
+            probs.append(Problem(view="species_raw", flag=fl, kind="diverge", detail={"what": "rule of a rebuilt reaction is neither on its arcs nor the default", "impl": im, "model_candidates": m["rules"]}))
+        elif "ok" in im and any(r["id"] not in explicit and r["rule"] not in {c for k, v in cands.items() if k not in explicit for c in v} for r in im["ok"]["rxns"]):
+            probs.append(Problem(view="species_raw", flag=fl, kind="diverge", detail={"what": "rule of a per-arc reaction is not a candidate", "impl": im, "model_candidates": m["rules"]}))
+        claim = sp_raw_claim(orig, t)
+        if count:
+            ctx.count("species_raw:" + ("claimed" if claim else "no claim (one-sided / view lost ids, labels or coefficients)"))
+            ctx.count("species_raw:re:" + ("ok" if "ok" in im else im["err"]))
+            for k in SP_RAW_MODES:
+                ctx.count("species_raw:%s=%s" % (k, t[k]))
+        if claim:
+            want = [[r["id"], r["r"], r["p"]] for r in orig["rxns"]]
+            got = [[r["id"], r["r"], r["p"]] for r in im["ok"]["rxns"]] if "ok" in im else im
+            if got != want:
+                probs.append(Problem(view="species_raw", flag=fl, kind="spec",
+                                     detail={"what": "ids / stoichiometry not reproduced", "impl": im, "original": orig, "kwargs": kw}))
+        out.append(probs)
+    return out
+
+
+ITEM_FORMS = ["tuples", "tuples", "mapping", "rules", "rules", "rules_short", "mixed"]
+
+
+def random_items_case(rnd, quick=True):
+    return {"str": rnd.choice(STR_FLAGS), "form": rnd.choice(ITEM_FORMS), "rules": rnd.choice(["true", "true", "true", "other", "none", "mix"]),
+            "suffix": rnd.random() < 0.8, "prefer": rnd.random() < 0.5, "default_rule": rnd.choice(["r", "dflt"]),
+            "via_conversion": rnd.random() < 0.5, "mask": [rnd.random() < 0.5 for _ in range(5)]}
+
+
+def items_of(lines, true_rules, t):
+    """-> (argument for parse_rxns, rules= argument or None, the (line, explicit rule) pairs it denotes
+    or None when the documented ValueError is expected)."""
+    n = len(lines)
+    if t["rules"] == "true":
+        ex = list(true_rules)
+    elif t["rules"] == "other":
+        ex = [["X", "k2", ""][i % 3] for i in range(n)]
+    elif t["rules"] == "none":
+        ex = [None] * n
+    else:
+        ex = [(true_rules[i] if hit(t["mask"], i) else None) for i in range(n)]
+    form = t["form"]
+    if form == "tuples":
+        return [(l, r) for l, r in zip(lines, ex)], None, [[l, r] for l, r in zip(lines, ex)]
+    if form == "mixed":  # plain strings where there is no rule, tuples elsewhere
+        return [(l if r is None else (l, r)) for l, r in zip(lines, ex)], None, [[l, r] for l, r in zip(lines, ex)]
+    if form == "mapping":
+        d = {}
+        for l, r in zip(lines, ex):
+            d[l] = r
+        return d, None, [[l, r] for l, r in d.items()]
+    if form == "rules":
+        return list(lines), ex, [[l, r] for l, r in zip(lines, ex)]
+    return list(lines), ex[:-1] + ([] if n % 2 else [None, None]), None  # length mismatch
+
+
+def items_claim(orig, lines, t, pairs):
+    """The parse is told every rule (explicitly on suffix-free lines, or by the suffix winning)."""
+    if pairs is None or not (labels_wf(orig) and positive(orig) and rules_wf(orig)):
+        return False
+    if len(pairs) != len(orig["rxns"]):
+        return False  # a mapping merged equal lines
+    f = t["str"]
+    if not f["rule"] and not f["id"]:
+        return t["rules"] == "true"
+    if f["rule"] and t["suffix"]:
+        # a line without an explicit rule takes the suffix; one with an explicit rule only if the suffix is preferred
+        return t["prefer"] or all(r is None for _, r in pairs)
+    return False
+
+
+def eval_items(ctx, items, tag, count=True):
+    """items: [(spec, t)]."""
+    from synkit.CRN.Hypergraph import conversion as cv
+    from synkit.CRN.Hypergraph.hypergraph import CRNHyperGraph
+
+    prep, reqs = [], []
+    for spec, t in items:
+        H = build_H(spec)
+        f = t["str"]
+        pairs_src = sorted(H.edges.items()) if f["sort"] else list(H.edges.items())
+        lines = cv.hypergraph_to_rxn_strings(H, include_rule_suffix=f["rule"], include_edge_id=f["id"], sort=f["sort"])
+        arg, rules, pairs = items_of(lines, [e.rule for _, e in pairs_src], t)
+        prep.append((H, lines, arg, rules, pairs))
+        reqs.append({"cmd": "views.parse_items", "items": pairs or [], "suffix": t["suffix"], "prefer": t["prefer"], "default_rule": t["default_rule"]})
+    reps = ctx.lean().ok(reqs, shards=4)
+    out = []
+    for (spec, t), (H, lines, arg, rules, pairs), m in zip(items, prep, reps):
+        probs = []
+        orig = canon_net(H)
+        kw = dict(default_rule=t["default_rule"], parse_rule_from_suffix=t["suffix"], prefer_suffix=t["prefer"])
+        if rules is None and t["via_conversion"]:
+            im = any_guarded(lambda: cv.rxns_to_hypergraph(arg, **kw))
+        else:
+            im = any_guarded(lambda: CRNHyperGraph().parse_rxns(arg, rules=rules, **kw))
+        want_m = m if pairs is not None else {"err": "ValueError"}  # documented: `rules` length mismatch
+        if im != want_m:
+            probs.append(Problem(view="items", flag=t, kind="diverge", detail={"what": "parsed network", "impl": im, "model": want_m, "lines": lines}))
+        claim = items_claim(orig, lines, t, pairs)
+        if count:
+            ctx.count("items:" + ("claimed" if claim else "no claim (a rule is not told / suffix left in the text / lengths differ)"))
+            ctx.count("items:re:" + ("ok" if "ok" in im else im["err"]))
+            ctx.count("items:form=" + t["form"]), ctx.count("items:rules=" + t["rules"])
+            ctx.count("items:prefer_suffix=%s parse_rule_from_suffix=%s" % (t["prefer"], t["suffix"]))
+            ctx.count("items:entry=" + ("rxns_to_hypergraph" if rules is None and t["via_conversion"] else "parse_rxns"))
+            if pairs and any(r is not None for _, r in pairs) and "|" in "".join(lines) and not (t["prefer"] and t["suffix"]):
+                ctx.count("items:explicit rule on a line with a suffix, suffix not preferred (the suffix stays in the last label; no claim)")
+        if claim:
+            got = contents(im["ok"]) if "ok" in im else im
+            if got != sorted_contents(orig):
+                probs.append(Problem(view="items", flag=t, kind="spec",
+                                     detail={"what": "multiset of (rule, reactants, products) not reproduced", "impl": im, "lines": lines, "original": orig}))
+        out.append(probs)
+    return out
+
+
+RAW_EVAL = {"bip_raw": lambda ctx, spec, extra, tag, count: eval_bip_raw(ctx, [(spec, extra["f"], extra["t"])], tag, count)[0],
+            "species_raw": lambda ctx, spec, extra, tag, count: eval_sp_raw(ctx, [(spec, extra["mol"], extra["t"])], tag, count)[0],
+            "items": lambda ctx, spec, extra, tag, count: eval_items(ctx, [(spec, extra["t"])], tag, count)[0]}
+
+
+def report_raw(ctx, view, spec, extra, probs, tag):
+    seen = set()
+    for p in probs:
+        if p["kind"] in seen:
+            continue
+        seen.add(p["kind"])
+        rep = ctx.extra.setdefault("reports_per_view_kind", {})
+        rk = view + "/" + p["kind"]
+        rep[rk] = rep.get(rk, 0) + 1
+        if rep[rk] > 2:
+            continue
+
+        def still(s, kind=p["kind"]):
+            return any(q["kind"] == kind for q in RAW_EVAL[view](ctx, s, extra, tag, False))
+        small = shrink_spec(ctx, spec, still)
+        ps = [q for q in RAW_EVAL[view](ctx, small, extra, tag, False) if q["kind"] == p["kind"]]
+        q = ps[0] if ps else p
+        case = {"kind": view, "spec": small, **extra}
+        detail = {"view": view, "stream": tag, "detail": q["detail"]}
+        if q["kind"] == "spec":
+            ctx.violation(f"{view}: the importer does not reproduce the network from a view that still determines it (documented input form / keyword argument)",
+                          case, detail)
+        else:
+            ctx.violation(f"correspondence broken: {view}, implementation differs from the model ViewsRaw.lean (no round-trip failure shown)",
+                          case, detail, no_input=True)
+
+
+def run_raw(ctx, view, items, tag, batch=300):
+    """items: [(spec, extra)] with extra the dict stored in the replay case."""
+    ev = {"bip_raw": lambda ch: eval_bip_raw(ctx, [(s, x["f"], x["t"]) for s, x in ch], tag),
+          "species_raw": lambda ch: eval_sp_raw(ctx, [(s, x["mol"], x["t"]) for s, x in ch], tag),
+          "items": lambda ch: eval_items(ctx, [(s, x["t"]) for s, x in ch], tag)}[view]
+    for k in range(0, len(items), batch):
+        chunk = items[k:k + batch]
+        for (spec, extra), probs in zip(chunk, ev(chunk)):
+            nsp = len({s for r in spec["rxns"] for s, _ in r["r"] + r["p"]})
+            ctx.case([spec, extra, tag], nontrivial=bool(spec["rxns"]) and nsp >= 2,
+                     sample={"stream": tag, "spec": spec, **extra} if len(spec["rxns"]) <= 1 else None)
+            ctx.count("nets:" + tag)
+            if probs:
+                report_raw(ctx, view, spec, extra, probs, tag)
+                if len(unclassified(ctx)) >= 8:
+                    return
+
+
+def one_sided_spec(rnd, pool):
+    """Sink-only or source-only network (the degree heuristic of the bipartite importer is exact on sinks)."""
+    sp = rnd.sample(pool, rnd.randint(1, 4))
+    sink = rnd.random() < 0.7
+    rx = []
+    for _ in range(rnd.randint(1, 3)):
+        side = [[s, rnd.choice([1, 1, 2, 3, 10])] for s in rnd.sample(sp, rnd.randint(1, min(2, len(sp))))]
+        rx.append({"id": None, "rule": rnd.choice(RULES), "r": side if sink else [], "p": [] if sink else side})
+    return {"rxns": rx, "isolated": [], "mol": [[s, rnd.choice(MOLS)] for s in sp if rnd.random() < 0.4]}
+
+
+def raw_streams(ctx):
+    rnd = ctx.rnd
+    # (1) bipartite importer
+    n = 260 if ctx.quick else 4000
+    items = []
+    while len(items) < n:
+        c = rnd.random()
+        spec = one_sided_spec(rnd, WF_POOL) if c < 0.12 else random_spec(rnd, WF_POOL, nsp_max=6, nrx_max=5)
+        if not buildable(spec):
+            continue
+        st, ro, iso, it, eid, mol = rnd.choice(ALL_BOOL6)
+        pv = rnd.random()
+        sp, rp = ("S:", "R:") if pv < 0.6 else ("sp/", "rx/") if pv < 0.75 else (None, None) if pv < 0.9 else ("S:", None)
+        f = {"sp": sp, "rp": rp, "bip": [0, 1], "stoich": st or rnd.random() < 0.5, "role": ro, "isolated": iso, "int": it and rnd.random() < 0.6,
+             "eid": eid or rnd.random() < 0.4, "mol": mol or rnd.random() < 0.4}
+        for _ in range(2):
+            items.append((spec, {"f": f, "t": random_bip_transform(rnd, f)}))
+    if len(unclassified(ctx)) < 8:
+        run_raw(ctx, "bip_raw", items, "bip-importer-raw")
+    # (2) species-graph importer
+    n = 320 if ctx.quick else 5000
+    items = []
+    while len(items) < n:
+        spec = random_spec(rnd, WF_POOL, nsp_max=6, nrx_max=5)
+        if rnd.random() < 0.75:
+            spec["rxns"] = [r for r in spec["rxns"] if r["r"] and r["p"]]
+        if not spec["rxns"] or not buildable(spec):
+            continue
+        for _ in range(2):
+            items.append((spec, {"mol": rnd.random() < 0.5, "t": random_sp_transform(rnd)}))
+    if len(unclassified(ctx)) < 8:
+        run_raw(ctx, "species_raw", items, "species-importer-raw")
+    # (3) parse_rxns input forms
+    n = 300 if ctx.quick else 5000
+    items = []
+    while len(items) < n:
+        spec = random_spec(rnd, WF_POOL if rnd.random() < 0.85 else WEIRD_POOL + WF_POOL[:4], nsp_max=5, nrx_max=4)
+        if buildable(spec):
+            items.append((spec, {"t": random_items_case(rnd)}))
+    if len(unclassified(ctx)) < 8:
+        run_raw(ctx, "items", items, "parse-input-forms")
+    # (4) hand-written lines with explicit rules (parse results only)
+    if len(unclassified(ctx)) < 8:
+        cases = []
+        for l in LINE_FIXED:
+            for ex, sfx, pre in ((None, True, True), ("X", True, False), ("X", True, True), ("", True, True), ("X", False, True)):
+                cases.append(([[l, ex]], sfx, pre, "dflt"))
+        run_item_lines(ctx, cases)
+
+
+def run_item_lines(ctx, cases):
+    """cases: [(items [[line, rule|None]..], parse_rule_from_suffix, prefer_suffix, default_rule)]."""
+    from synkit.CRN.Hypergraph.hypergraph import CRNHyperGraph
+
+    mod = ctx.lean().ok([{"cmd": "views.parse_items", "items": it, "suffix": sfx, "prefer": pre, "default_rule": dr} for it, sfx, pre, dr in cases], shards=4)
+    for (it, sfx, pre, dr), m in zip(cases, mod):
+        im = any_guarded(lambda: CRNHyperGraph().parse_rxns([tuple(x) for x in it], default_rule=dr, parse_rule_from_suffix=sfx, prefer_suffix=pre))
+        ctx.case(["item-lines", it, sfx, pre], nontrivial=True)
+        ctx.count("item-lines:" + ("ok" if "ok" in im else im["err"]))
+        if im != m:
+            ctx.violation("correspondence broken: parse_rxns with an explicit per-line rule differs from the model parseItemsFrom (malformed stream, no round-trip claim)",
+                          {"kind": "item_lines", "items": it, "suffix": sfx, "prefer": pre, "default_rule": dr}, {"impl": im, "model": m}, no_input=True)
+            if len(unclassified(ctx)) >= 8:
+                return
+
+
+def check_raw_ties(ctx, specs):
+    """The raw importers of ViewsRaw.lean agree with the importers the theorems are about on every
+    exported graph (default options) — evaluated by the driver."""
+    reqs, fls = [], [{"sp": "S:", "rp": "R:", "bip": [0, 1], "stoich": st, "role": True, "isolated": iso, "int": it, "eid": eid, "mol": mol}
+                     for st, iso, it, eid, mol in itertools.product([False, True], repeat=5)]
+    fls.append({"sp": None, "rp": None, "bip": [0, 1], "stoich": True, "role": True, "isolated": True, "int": False, "eid": True, "mol": True})
+    for spec in specs:
+        net = net_of_H(build_H(spec))
+        reqs.append({"cmd": "views.bip_tie", "net": net, "flags": fls})
+        reqs.append({"cmd": "views.species_tie", "net": net, "mol": True})
+        reqs.append({"cmd": "views.species_tie", "net": net, "mol": False})
+    reps = ctx.lean().ok(reqs, shards=8)
+    bad = [i for i, r in enumerate(reps) if (r is not True and not (isinstance(r, list) and all(x is True for x in r)))]
+    ctx.count("raw_tie_checks", len(reqs))
+    ctx.obligation("ViewsRaw importers == Views importers (the ones under the theorems) on exported graphs, default options", not bad,
+                   "first failing request: " + json.dumps(reqs[bad[0]])[:600] if bad else "")
+
+
 def unclassified(ctx):
     return [v for v in ctx.violations if not v["classes"]]
 
@@ -650,6 +1247,10 @@ def run_case(ctx, c, tag):
         run_sides(ctx, c["sides"], tag)
     elif c["kind"] == "lines":
         run_lines(ctx, [(c["lines"], c.get("suffix", True), c.get("default_rule", "r"))], tag)
+    elif c["kind"] in RAW_EVAL:
+        run_raw(ctx, c["kind"], [(c["spec"], {k: v for k, v in c.items() if k not in ("kind", "spec", "note")})], tag)
+    elif c["kind"] == "item_lines":
+        run_item_lines(ctx, [(c["items"], c["suffix"], c["prefer"], c["default_rule"])])
 
 
 def run(ctx):
@@ -659,22 +1260,39 @@ def run(ctx):
         "Driver/Views.lean JSON codec, harness/props/c16.py adapter + canonicalisation (node/arc lists, attribute dicts, sets sorted)",
         "NetworkX DiGraph semantics (insertion-ordered nodes/arcs, add_node/add_edge update in place) as modelled; Python hash() is a parameter of the model "
         "(ids regenerated from it are compared by shape only)",
-        "not modelled: the prefix / degree heuristics of bipartite_to_hypergraph for graphs without 'kind' tags, arcs without 'via', non-ASCII decimal digits in \\d / int()",
+        "modelled outside the theorems (SynKitModel/ViewsRaw.lean, tied to Views.lean on exported graphs by the raw_tie obligation): the prefix / degree heuristics of "
+        "bipartite_to_hypergraph for graphs without 'kind' tags, missing label / edge_id / stoich / mol attributes, species arcs without 'via' / per-reaction maps, "
+        "parse_rxns with explicit per-line rules; the attribute-name keyword arguments are resolved by the adapter (it reads each attribute under the name it passes)",
+        "not modelled: non-ASCII decimal digits in \\d / int(); 'rules' of a species arc given as a list (TypeError: unhashable) or tuple; a frozenset as 'via'; "
+        "mixed int/str node ids; two species nodes with one label",
     ]
     ctx.assumptions = [
         "string round trip: labels satisfy WfLabel (non-empty, first char an ASCII letter, no whitespace, none of + * | >), rules non-empty without whitespace, rule suffix printed",
         "bipartite round trip: include_stoich (or all coefficients 1); ids reproduced iff include_edge_id_attr; string ids must not clash (always true with prefixes S:/R:)",
         "species-graph round trip: every reaction has reactants and products; rules are not claimed (the code picks an arbitrary rule among reactions sharing an arc)",
         "species without reactions and their molecule labels are not carried by any view's importer (reactions, their species and those species' labels are)",
+        "degraded / re-keyed views (raw streams): a round trip is claimed only where the view still determines the network — node kinds present or decidable by the "
+        "prefixes passed to the importer (string ids, non-empty prefixes, no reaction node id starting with the species prefix); labels present under the attribute name "
+        "passed, or node id == label; rules present or all equal to default_rule; coefficients present (bipartite 'stoich'; species graph: per-reaction maps, or legacy "
+        "stoich_r/stoich_p when all reactions on an arc agree) or all 1; species arcs all carry 'via'. Elsewhere (degree heuristic, lost attributes) only implementation == model",
+        "parse_rxns input forms: claimed when every rule is told — explicit true rules on suffix-free lines, or lines with a rule suffix and (no explicit rule or prefer_suffix); "
+        "an explicit rule on a line that also carries a suffix, without prefer_suffix, leaves the suffix text in the last product label (modelled as the code does, no claim)",
     ]
     ctx.gen_rule = ("regression corpus first; EXHAUSTIVE small networks (see exhaustive_part) each with 8 seeded-random of the 64 boolean flag combinations + 3 prefix variants; "
                     "RANDOM networks (<=8 species, <=10 reactions; catalysts, repeated reactions, source/sink, coefficients up to 100, reactions sharing a species pair, "
                     "labels like Fe2/H2O/A_1/Zn(OH)2, rules from a small alphabet, explicit ids that look generated, species without reactions, molecule labels) with ALL 64 flag "
                     "combinations + 3 prefix variants + the _as_bipartite/_CRNGraphBackend presets, species graph with/without mol, 8 string flag combinations; "
                     "CLASH stream (un-prefixed ids, species named like reaction ids); MALFORMED streams (labels outside WfLabel in networks; hand-written and random side strings; "
-                    "hand-written reaction lines, with and without suffix parsing) compared on parse results only.")
+                    "hand-written reaction lines, with and without suffix parsing) compared on parse results only; "
+                    "RAW-IMPORTER streams: random networks (<=6 species, <=5 reactions; 12% sink-/source-only for the bipartite one) exported by the real exporter with random flags "
+                    "(prefixes S:/R: 60%, sp//rx/ 15%, none 15%, S:/none 10%; int ids ~30%), then 2 seeded-random degradations each (35% every dimension drawn, else 1-2 dimensions and the rest as exported) from the mode "
+                    "lists BIP_RAW_MODES / SP_RAW_MODES (kind tags kept/stripped for all, species, reactions, a masked subset, or set to another value; labels, edge_id, stoich, mol "
+                    "kept / stripped / renamed with or without passing the attribute-name keyword; importer prefixes as exported 70% else from a small pool; default_rule; mol_attr=None; "
+                    "species graph: nodes relabelled to 1..N or n<k>, via as set/list/tuple/single id/stripped/partly stripped, rules set/single/stripped, per-reaction maps kept/stripped/"
+                    "one side/partly, legacy values kept/stripped); PARSE-INPUT-FORMS: printed lines (8 flag combinations) fed back as (line, rule) tuples, mixed, mapping, rules=, rules= of wrong "
+                    "length, with true / other / no / partly given rules, prefer_suffix, parse_rule_from_suffix, default_rule, through parse_rxns or rxns_to_hypergraph; LINE_FIXED x 5 explicit-rule settings.")
     ctx.nontrivial_rule = "network distinct as a JSON value (per stream) with >=1 reaction over >=2 species; side/line strings distinct and non-blank"
-    build_and_audit(ctx, ["SynKitProofs.Props.C16"], "SynKitProofs/Audit/C16.lean", THEOREMS)
+    build_and_audit(ctx, ["SynKitProofs.Props.C16", "SynKitProofs.ViewsRawLemmas"], "SynKitProofs/Audit/C16.lean", THEOREMS)
     rnd = ctx.rnd
 
     # WfLabel twin check
@@ -765,6 +1383,15 @@ def run(ctx):
                 ls.append(l)
             cases.append((ls, rnd.random() < 0.8, rnd.choice(["r", "dflt"])))
         run_lines(ctx, cases, "malformed-lines")
+    # importers on inputs the exporters do not produce (documented input forms, keyword arguments)
+    if len(unclassified(ctx)) < 8:
+        raw_streams(ctx)
+    tie_specs = []
+    while len(tie_specs) < (40 if ctx.quick else 400):
+        spec = random_spec(rnd, WF_POOL, nsp_max=5, nrx_max=4)
+        if buildable(spec):
+            tie_specs.append(spec)
+    check_raw_ties(ctx, tie_specs)
     real = [v for v in ctx.violations if not v["classes"]]
     ctx.obligation("correspondence: exported views and re-imported networks, implementation == model, every flag combination", not [v for v in real if v["no_input"]])
     ctx.obligation("round trips reproduce the network on the implementation wherever the theorems claim it", not [v for v in real if not v["no_input"]])
@@ -794,6 +1421,10 @@ def check_presets(ctx, specs):
         s3 = canon_sgraph(cv.hypergraph_to_species_graph(H))
         if s1 != s3 or s2 != s3:
             bad = bad or {"spec": spec, "which": "_as_species_graph/_CRNGraphBackend species view"}
+        bb, bs = _CRNGraphBackend(H, include_rule=True), _CRNGraphBackend(H, include_rule=False)
+        if (bb.graph_type, bs.graph_type) != ("bipartite", "species") or bb.G is not bb.G or bs.G is not bs.G \
+                or canon_bgraph(bb.G) != canon_bgraph(cv.hypergraph_to_bipartite(H, **flags_kwargs(pb[2]))) or canon_sgraph(bs.G) != s3:
+            bad = bad or {"spec": spec, "which": "_CRNGraphBackend graph_type / cached graph"}
         ctx.count("preset_checks")
     if bad:
         ctx.violation("correspondence broken: an internal caller no longer uses the exporter at the flag preset written in the model",
